@@ -72,6 +72,26 @@ CLAIMED = {
             "TLC checks for every (step, field) lie and every leading-zero assignment that the exchange ends aborted with nothing stored and no encrypted request, never in a panic state; omitting any single check (sampled) or panicking on a bad answer hash must break it. In real exchanges the reference server corrupts one reply field of resPQ / server_DH_params_ok / server_DH_inner_data / dh_gen_ok by bit flip (seeded positions; every bit in thorough), fresh value, the other nonce or zero, or answers with the failure / retry constructors; TLC judges: CreateConnection returns an error (no panic), store empty, no encrypted frame at the server.",
             "a panic inside CreateConnection is recovered by the harness and counted as a violation (not an abort with an error)",
             "5 C07"),
+    "C01": ("model_checking",
+            "TLA+ wire-format definition (TLCodec.tla) model-checked on a synthetic universe (TLCodecMC.tla); schema-directed value families generated by TLC (TLCodecGen.tla) round-tripped through tl.Marshal / Decode / DecodeUnknownObject",
+            "TLC checks on every layout of up to 2 (3 in thorough) fields over 7 kinds with shared conditional bits that the specified encoding is word-aligned, reads back through a layout-only decoder (RoundTrip) and that a present group which drops a member cannot be read back (GroupRule). For every definition of the shipped schemas TLC then builds the pattern family of values (all groups absent/present, shared-group zero members, each bit alone/removed, present-empty vectors, string lengths across both header forms and every residue mod 4, scalar extremes, enum members, nested objects, 128/256-bit integers with leading zeros); the Go values built by position must survive Marshal twice (identical bytes), Decode into the named type and DecodeUnknownObject.",
+            "reflect.DeepEqual decides equality; hand-written codecs (gzip_packed, msg_container, msg_copy, rpc_result) are exercised in the decode direction by C09/C15/C16",
+            "5 C01"),
+    "C02": ("model_checking",
+            "TLA+ wire-format definition (TLCodec.tla) applied by TLC to layouts read from the .tl text (SchemaDefs.tla); byte images compared with tl.Marshal and decoded by tl.DecodeUnknownObject",
+            "The layout of every constructor and method comes from an independent reading of the schema text (own lexer + TLA+ interpretation of parameter types, flag bits, flags-word position); TLCodec!EncObj, evaluated by TLC, yields the byte image of each pattern value with all format constants (little-endian words, 1-/4-byte string headers and the 254 threshold, alignment, vector id and count, Bool ids, fixed-width big-endian 128/256-bit integers) stated in TLA+. tl.Marshal of the Go value must equal the image byte for byte, the image must decode to the value, and a 2^24-byte string must be refused.",
+            "string payload bytes are a fixed function of (length, tag) on both sides; constructor ids are taken from the schema text (their CRC is checked by C13)",
+            "5 C02"),
+    "C13": ("model_checking",
+            "TLA+ relation Faithful (SchemaXlate.tla, incl. CRC-32 in TLA+) evaluated by TLC on the lexed schema and the reflected registry of the built binary; TLC-generated method contracts replayed end-to-end against the reference server",
+            "TLC evaluates for each of the 1241 definitions: written id = CRC-32 of the canonical line, exactly one registered type, enum vs struct, field count, kinds, names and order, vector markers, conditional bits, flags-word position; nothing registered outside the schemas; generic request wrappers present, structurally equal and byte-exact. For all 343 generated client methods TLC emits the request image of a call whose arguments name their position and an answer of the declared result kind; each method is called by reflection against the reference server: the request the server decrypts must equal the image, the value returned must be the answer sent.",
+            "the specification is evaluated as a relation over extracted data (no state graph); definitions kept as comment lines count as defined, their CRC is not checked; MTProto service objects may abbreviate field names",
+            "5 C13"),
+    "C15": ("model_checking",
+            "TLA+ decoder machine (TLDecoder.tla) model-checked with TLC over all short word streams; structure-aware mutants with the model's word classes decoded by the real decoder in a memory-limited child",
+            "TLC checks for every word stream of up to 4 (5 in thorough) words over 15 word classes, with and without vector hints, that the expectation-stack decoder ends in value or error (never panic), allocates no more than the remaining input can fill and terminates within a linear number of steps; the three as-coded deviations each break it. The same word classes drive mutation of valid images of the registered constructors (truncations, every leading word replaced by each class), vector results with and without hints, containers with negative/huge counts and sizes, broken gzip bodies; the real decoder runs under recover, a watchdog, allocation accounting and a 12 GiB address-space limit.",
+            "value-versus-error on corrupted input is not specified; gzip expansion exempt from the allocation bound; a child killed by the memory limit is attributed to the mutant announced last",
+            "5 C15"),
 }
 
 NOT_YET = {}
